@@ -513,10 +513,10 @@ func (fc *FnCtx) tokens(extra []SExpr) []string {
 		out = append(out, s)
 	}
 	sort.Strings(out)
-	if len(out) > 14 {
-		// prefer longer tokens (keywords) and punctuation over letters
+	if len(out) > 12 {
+		// prefer longer tokens (keywords) and punctuation over letters, but always keep one letter and one digit
 		sort.SliceStable(out, func(i, j int) bool { return tokenRank(out[i]) > tokenRank(out[j]) })
-		out = out[:14]
+		out = append(out[:10], "a", "0")
 		sort.Strings(out)
 	}
 	return out
@@ -874,15 +874,16 @@ func (r *Runner) genReplayTest(o *Obligation, params []replayParam, model map[st
 		tokLits = append(tokLits, strconv.Quote(t))
 	}
 	fmt.Fprintf(&sb, "\ttoks := []string{%s}\n", strings.Join(tokLits, ", "))
-	sb.WriteString("\tints := []int{0, 1, 2, 9, 10, 11, 100, 255, 256, -1, int(^uint(0) >> 1)}\n")
+	sb.WriteString("\tints := []int{0, 1, 2, 9, 10, 11, 100, 255, 256, -1, int(^uint(0) >> 1)}\n\t_ = ints\n")
 	sb.WriteString("\tvar seqs []string\n\tvar gen func(prefix string, depth int)\n\tmaxDepth := 5\n\tif len(toks) > 9 {\n\t\tmaxDepth = 4\n\t}\n")
 	sb.WriteString("\tgen = func(prefix string, depth int) {\n\t\tseqs = append(seqs, prefix)\n\t\tif depth == maxDepth {\n\t\t\treturn\n\t\t}\n\t\tfor _, tk := range toks {\n\t\t\tgen(prefix+tk, depth+1)\n\t\t}\n\t}\n\tgen(\"\", 0)\n")
 	nSeq := 0
 	for _, p := range params {
-		if p.kind == "bytes" || p.kind == "string" {
+		if (p.kind == "bytes" || p.kind == "string") && !isOutputBufName(p.name) {
 			nSeq++
 		}
 	}
+	sb.WriteString("\toutbufs := []string{\"\"}\n\t_ = outbufs\n")
 	if nSeq > 1 {
 		sb.WriteString("\tif len(seqs) > 600 {\n\t\tseqs = seqs[:600]\n\t}\n")
 	}
@@ -896,7 +897,12 @@ func (r *Runner) genReplayTest(o *Obligation, params []replayParam, model map[st
 		v := fmt.Sprintf("x%d", i)
 		switch p.kind {
 		case "bytes":
-			fmt.Fprintf(&sb, "%sfor _, %s := range seqs {\n", indent, v)
+			if isOutputBufName(p.name) {
+				// an output buffer: its content does not matter, only try the empty one
+				fmt.Fprintf(&sb, "%sfor _, %s := range outbufs {\n", indent, v)
+			} else {
+				fmt.Fprintf(&sb, "%sfor _, %s := range seqs {\n", indent, v)
+			}
 			args = append(args, p.goT+"([]byte("+v+"))")
 			shows = append(shows, v)
 		case "string":
@@ -973,3 +979,5 @@ func recvLiteral(fc *FnCtx, p replayParam, model map[string]int64) (string, stri
 	tn := goTypeString(pt.Elem(), fc.pkg.Types)
 	return "&" + tn + "{" + strings.Join(fields, ", ") + "}", p.name + "={" + strings.Join(shows, " ") + "}"
 }
+
+func isOutputBufName(n string) bool { return n == "dst" || n == "buf" || n == "bufK" || n == "bufV" }
